@@ -1081,6 +1081,11 @@ class PX:
             return Sym(f"{b.tag}.{attr}")
         if isinstance(b, ClassRef) and attr == "__mro__":
             return tuple(b.mro()) + (TypeRef("builtins.object"),)
+        if isinstance(b, ModuleRef) and getattr(b, "name", None) == "re" and attr.isupper():
+            import re as _real_re3
+
+            if hasattr(_real_re3, attr):
+                return getattr(_real_re3, attr)
         if isinstance(b, (ModuleRef, ClassRef, Record)):
             if isinstance(b, ClassRef):
                 try:
@@ -1108,6 +1113,11 @@ class PX:
                 pass
             return Sym(f"{b!r}.{attr}")
         if isinstance(b, TypeRef):
+            if b.name == "re" and attr.isupper():
+                import re as _real_re2
+
+                if hasattr(_real_re2, attr):
+                    return getattr(_real_re2, attr)  # regex flags are plain constants
             return TypeRef(b.name + "." + attr)
         if isinstance(b, FuncRef):
             if attr in ("__func__",):
